@@ -60,7 +60,37 @@ def make_node(i, nd):
     raise ValueError(t)
 
 
-def build_raw(g, cls=BasicDSG):
+def held_back_edges(g):
+    """Derivation edges leaving an option node that can be added AFTER a first initialisation without any node
+    becoming unreachable in the meantime (greedy; used for the build-initialise-extend-initialise history)."""
+    opts = {o for c in g['ch'] for o in c['opts']}
+    conn_like = {i+1 for i, nd in enumerate(g['nodes']) if nd['t'] != 'plain'}
+
+    def potential(der):
+        S = set(g['start'])
+        while True:
+            T = set(S)
+            for s, t in der:
+                if s in S:
+                    T.add(t)
+            for c in g['ch']:
+                if c['origin'] in S:
+                    T.update(c['opts'])
+            if T == S:
+                return S
+            S = T
+    full = potential(g['der'])
+    kept, held = list(g['der']), []
+    for e in list(g['der']):
+        if e[0] in opts and e[1] not in conn_like and e[0] not in conn_like:
+            trial = [x for x in kept if x != e]
+            if potential(trial) == full:
+                kept = trial
+                held.append(e)
+    return kept, held
+
+
+def build_raw(g, cls=BasicDSG, der=None):
     """Everything up to (not including) set_start_nodes."""
     g = normalise(g)
     b = Built(g)
@@ -70,7 +100,7 @@ def build_raw(g, cls=BasicDSG):
         b.node[i] = nobj
         b.inv[nobj] = i
         d.add_node(nobj)
-    d.add_edges([(b.node[s], b.node[t]) for s, t in g['der']])
+    d.add_edges([(b.node[s], b.node[t]) for s, t in (g['der'] if der is None else der)])
     for k, c in enumerate(g['ch'], 1):
         cn = d.add_selection_choice('C%02d' % k, b.node[c['origin']], [b.node[o] for o in c['opts']])
         b.ch[k] = cn
@@ -105,7 +135,27 @@ def apply_constraints(b, d):
     return d
 
 
-def build(g, cls=BasicDSG):
+def build(g, cls=BasicDSG, staged=False):
+    """staged: the graph is initialised once without some derivation edges, extended by them, and initialised again
+    (a design space that grows after it was first used)."""
+    if staged:
+        kept, held = held_back_edges(normalise(g))
+        if g.get('inc'):
+            # the first initialisation removes nodes that conflict with confirmed ones together with their constraints;
+            # a user who extends the graph afterwards has to declare them again - not a history this check judges
+            raise SkipInput('staged build is only exercised without incompatibility constraints')
+        if not held:
+            raise SkipInput('no derivation edge can be held back')
+        b = build_raw(g, cls, der=kept)
+        d = b.dsg_raw.set_start_nodes({b.node[s] for s in g['start']})
+        # what the first initialisation resolved on its own (the second one only reports what was still open)
+        b.auto_first = [[b.chinv[c], b.inv[o] if o is not None else 0] for c, o in d.get_taken_single_selection_choices() if c in b.chinv]
+        for s, t in held:
+            d.add_edge(b.node[s], b.node[t])
+        d = d.set_start_nodes({b.node[s] for s in g['start']})
+        d = apply_constraints(b, d)
+        b.dsg = d
+        return b
     b = build_raw(g, cls)
     d = b.dsg_raw.set_start_nodes({b.node[s] for s in g['start']})
     d = apply_constraints(b, d)
